@@ -125,6 +125,9 @@ func newMgen(rng *rand.Rand, env map[string]string, free bool) *mgen {
 				v + "rc1", v + ".dev1", v + ".post1", v + "a0", bump(v, 1) + "rc1", bump(v, 1) + ".dev0",
 				v + ".*", major + ".*", bump(v, 1) + ".*",
 				v + ".0.0", v + ".post0",
+				// Spellings packaging accepts in a specifier besides the normal form:
+				// a leading v/V and leading zeros.
+				"v" + v, "V" + v, "v" + bump(v, -1), "V" + bump(v, 1), "v" + v + ".0", "v3.8", "V3.10", "v" + major, "0" + v, "v" + v + "rc1",
 				// Non-version text.
 				"", "abc", v + "x", v + ".", "three", "3.x", "py" + v,
 				// Containers for in / not in.
@@ -135,6 +138,18 @@ func newMgen(rng *rand.Rand, env map[string]string, free bool) *mgen {
 				v + " other", "win32," + v, "nt;" + v + ";java"}
 			if len(v) > 1 {
 				ls = append(ls, v[:len(v)-1], v[1:], v[:1])
+				// A blank inside the value, and the value as one of two words.
+				ls = append(ls, v[:len(v)/2]+" "+v[len(v)/2:], v[:1]+" "+v[1:], "x "+v, v+"  "+v)
+			}
+			if words := strings.Split(v, " "); len(words) > 1 {
+				// Pieces of a value that has blanks, with and without them.
+				ls = append(ls, strings.ReplaceAll(v, " ", ""), strings.Replace(v, " ", "", 1), strings.ReplaceAll(v, " ", "  "))
+				for i := 0; i+1 < len(words); i++ {
+					ls = append(ls, words[i]+" "+words[i+1], words[i]+words[i+1], words[i]+"  "+words[i+1], words[i]+" ", " "+words[i+1])
+					if i+2 < len(words) {
+						ls = append(ls, words[i]+" "+words[i+1]+" "+words[i+2], words[i]+words[i+1]+" "+words[i+2])
+					}
+				}
 			}
 			for _, c := range probeCandidates[name] {
 				if !looksVersion(c) {
@@ -386,6 +401,12 @@ func markerDomain(atoms []atom, extras []string, env map[string]string, vi map[s
 			// (the left value goes through Version): === compares str(Version(left)),
 			// so an unnormalised spelling matters in 21.3 only; and Specifier.contains
 			// drops a pre-release left value in 21.3 but not later.
+			if a.Op == "~=" && vi[rv] != nil && vi[rv].Norm != rv {
+				// 21.3 derives the prefix of ~= from the text of the specifier, so a
+				// right side that is not in normal form (v3.9, 03.9) never matches;
+				// later generations work on the parsed version.
+				return "compatible-release-unnormalised-right"
+			}
 			if a.Op == "===" && vi[lv].Norm != lv {
 				return "arbitrary-equality-unnormalised-left"
 			}
@@ -420,7 +441,7 @@ func distinctSorted(ss []string) []string {
 
 // checkMarkers evaluates the cases with packaging (one adapter batch), decides
 // the domain, resolves each in-domain case and compares.
-func checkMarkers(r *ev.Run, env map[string]string, cases []markerCase, origin string, report reporter) {
+func checkMarkers(r *ev.Run, env map[string]string, cases []markerCase, origin string, report reporter, order *rand.Rand) {
 	type parsed struct {
 		atoms []atom
 		depth int
@@ -530,6 +551,8 @@ func checkMarkers(r *ev.Run, env map[string]string, cases []markerCase, origin s
 		jobs = append(jobs, job{i: i, want: want, envs: mx.Envs})
 	}
 
+	fresh := make([]obs, len(cases)) // via-top observation on a fresh resolver, per case
+	wants := make([]bool, len(cases))
 	var wg sync.WaitGroup
 	ch := make(chan job, 256)
 	for w := 0; w < 12; w++ {
@@ -541,6 +564,7 @@ func checkMarkers(r *ev.Run, env map[string]string, cases []markerCase, origin s
 				p := ps[j.i]
 				var observations []obs
 				observations = append(observations, resolveMarker(c.Marker, c.Extras, true))
+				fresh[j.i], wants[j.i] = observations[0], j.want
 				if len(c.Extras) == 0 {
 					// Without extras the root's own dependencies take a second
 					// path through the resolver (evaluated before resolution starts).
@@ -594,6 +618,77 @@ func checkMarkers(r *ev.Run, env map[string]string, cases []markerCase, origin s
 	}
 	close(ch)
 	wg.Wait()
+
+	// Second pass: all in-domain markers of this batch on ONE resolver, in a
+	// seeded order. State the resolver keeps between Resolve calls must not
+	// change any verdict.
+	idx := make([]int, len(jobs))
+	for k, j := range jobs {
+		idx[k] = j.i
+	}
+	if order != nil {
+		order.Shuffle(len(idx), func(a, b int) { idx[a], idx[b] = idx[b], idx[a] })
+	}
+	// Pairs the shared resolver could confuse: equal once blanks are dropped
+	// (inside literals too), different truth.
+	byStripped := map[string][2]int{}
+	for _, i := range idx {
+		k := stripWS(cases[i].Marker) + "\x00" + strings.Join(cases[i].Extras, ",")
+		c := byStripped[k]
+		if wants[i] {
+			c[1]++
+		} else {
+			c[0]++
+		}
+		byStripped[k] = c
+	}
+	for _, c := range byStripped {
+		if c[0] > 0 && c[1] > 0 {
+			r.Count("shared_batch_groups_equal_modulo_blanks_with_both_truths", 1)
+		}
+		if c[0]+c[1] > 1 {
+			r.Count("shared_batch_groups_equal_modulo_blanks", 1)
+		}
+	}
+	sh := newSharedResolver(cases, idx)
+	for _, i := range idx {
+		c := cases[i]
+		o := sh.resolve(i)
+		r.Eval(1)
+		r.Count("shared_resolver_resolutions", 1)
+		if o.String() == fresh[i].String() {
+			continue
+		}
+		// The fresh resolver's verdict has been judged above; what is new
+		// here is that the verdict depends on the resolver's history.
+		cs := Case{Kind: "marker", Marker: c.Marker, Extras: c.Extras, Lib: o.String() + " (shared resolver); " + fresh[i].String() + " (fresh resolver)", Ref: fmt.Sprint(wants[i])}
+		switch {
+		case o.Budget:
+			r.Inconclusive(fmt.Sprintf("step budget exceeded resolving marker %q on the shared resolver", c.Marker))
+		case o.Shape != "":
+			r.Inconclusive(fmt.Sprintf("marker %q on the shared resolver: unexpected graph shape: %s", c.Marker, o.Shape))
+		default:
+			cs.Before = sharedContext(cases, idx, i)
+			report("C16:marker:shared-resolver-state", fmt.Sprintf("marker %q extras %v: packaging evaluates to %v; a fresh resolver gives %q, the same resolver after other resolutions gives %q", c.Marker, c.Extras, wants[i], fresh[i], o), cs)
+		}
+	}
+}
+
+// sharedContext lists the markers resolved earlier on the shared resolver that
+// equal this one modulo blanks (the likely partners of a confusion); a replay
+// resolves them first on the same resolver.
+func sharedContext(cases []markerCase, idx []int, i int) []string {
+	key := stripWS(cases[i].Marker)
+	var prev []string
+	for _, k := range idx {
+		if k == i {
+			break
+		}
+		if stripWS(cases[k].Marker) == key && len(prev) < 6 {
+			prev = append(prev, cases[k].Marker)
+		}
+	}
+	return prev
 }
 
 func features(r *ev.Run, c markerCase, atoms []atom, depth int, env map[string]string, want bool) {
@@ -623,6 +718,16 @@ func features(r *ev.Run, c markerCase, atoms []atom, depth int, env map[string]s
 		r.Count("marker_mixed_and_or_unparenthesised", 1)
 	}
 	for _, a := range atoms {
+		lit := a.L.Text
+		if a.L.Var {
+			lit = a.R.Text
+		}
+		if len(lit) > 1 && (lit[0] == 'v' || lit[0] == 'V') && lit[1] >= '0' && lit[1] <= '9' && a.Op != "in" && a.Op != "not in" {
+			r.Count("literal:v-prefix", 1)
+		}
+		if strings.Contains(strings.TrimSpace(lit), " ") {
+			r.Count("literal:inner-blank", 1)
+		}
 		r.Count("op:"+a.Op, 1)
 		if a.L.Var {
 			r.Count("var:"+a.L.Text, 1)
@@ -649,10 +754,26 @@ func runMarkers(r *ev.Run, env map[string]string) {
 			rng := r.Rand(fmt.Sprintf("markers/%d", sh))
 			g := newMgen(rng, env, false)
 			var cases []markerCase
-			for i := 0; i < chunk && sh*chunk+i < n; i++ {
+			size := min(chunk, n-sh*chunk)
+			// A quarter of the batch are families (base + members differing in
+			// blanks, literal case, quotes, operand order); the rest independent.
+			for len(cases) < size/4 {
+				base := g.pivot()
+				if rng.Intn(3) == 0 {
+					base = g.small()
+				}
+				ex := pickExtras(rng)
+				fam := family(rng, base)
+				r.Count("families", 1)
+				for _, m := range fam {
+					cases = append(cases, markerCase{Marker: m, Extras: ex})
+				}
+			}
+			r.Count("family_members", int64(len(cases)))
+			for len(cases) < size {
 				cases = append(cases, markerCase{Marker: g.marker(), Extras: pickExtras(rng)})
 			}
-			checkMarkers(r, env, cases, "generated", r.Violation)
+			checkMarkers(r, env, cases, "generated", r.Violation, r.Rand(fmt.Sprintf("markers/order/%d", sh)))
 		}(sh)
 	}
 	// Single-atom sweep: all combinations (thorough) or a seeded sample (quick).
@@ -671,12 +792,18 @@ func runMarkers(r *ev.Run, env map[string]string) {
 			go func() {
 				defer wg.Done()
 				defer func() { <-sem }()
-				checkMarkers(r, env, part, "sweep", r.Violation)
+				checkMarkers(r, env, part, "sweep", r.Violation, r.Rand(fmt.Sprintf("markers/sweep-order/%d", i)))
 			}()
 		}
 	}
 	wg.Wait()
 	r.Gate("marker_in_domain", int64(n/2))
+	r.Gate("shared_resolver_resolutions", int64(n/2))
+	r.Gate("family_members", int64(n/5))
+	r.Gate("shared_batch_groups_equal_modulo_blanks", int64(n/50))
+	r.Gate("shared_batch_groups_equal_modulo_blanks_with_both_truths", int64(n/200))
+	r.Gate("literal:v-prefix", int64(n/100))
+	r.Gate("literal:inner-blank", int64(n/20))
 	r.Gate("marker_nontrivial", int64(n/10))
 	r.Gate("marker_true", int64(n/40))
 	r.Gate("marker_false", int64(n/40))
